@@ -108,6 +108,7 @@ def verify_function(world, cname, prop, timeout_ms=QUICK_TIMEOUT_MS, source_over
         ex.loop_ids = {id(n): k for k, n in enumerate(loops_in_order(fn, []))}
         ex.cur_cls = q if q else dq
         st = State(world)
+        st.heap_closure = bool(getattr(c, "heap_closure", False))
         env = {}
         for n, k in c.params.items():
             kk = k
